@@ -30,6 +30,11 @@ if os.path.realpath(REPO) != "/repo":
 KNOWN = os.path.join(VERIF, "known_findings.jsonl")
 
 GOENV = dict(GOFLAGS="-mod=mod", GOPROXY="off", GOSUMDB="off", GOTOOLCHAIN="local")
+MODFILE = None
+if os.path.realpath(REPO) != "/repo":
+    # private go.mod / go.sum for runs against another copy, so that such runs can go on side by side with runs on /repo
+    MODFILE = os.path.join(_ALT, "go.mod")
+    GOENV["GOFLAGS"] = "-mod=mod -modfile=" + MODFILE
 
 
 class CheckError(Exception):
@@ -85,6 +90,8 @@ def run(cmd, cwd=None, env=None, timeout=None, check=True, capture=True):
 def build_overlay(ctx, clocks=()):
     """Generate the build overlay from /repo's current working tree."""
     mk = ctx.path("bin", "mkoverlay")
+    if MODFILE and not os.path.exists(MODFILE):
+        ensure_gosum()
     if not os.path.exists(mk):
         run(["go", "build", "-o", mk, "./cmd/mkoverlay"], cwd=HARNESS, timeout=600)
     tag = "ov_" + "_".join(sorted(c.replace("/", "-") for c in clocks))[:80] if clocks else "ov"
@@ -99,7 +106,7 @@ def build_overlay(ctx, clocks=()):
 
 def ensure_gosum():
     """harness/go.mod and go.sum are generated from /repo's (same pinned versions, offline)."""
-    run([sys.executable, os.path.join(VERIF, "tools", "mkgomod.py"), REPO], timeout=60)
+    run([sys.executable, os.path.join(VERIF, "tools", "mkgomod.py"), REPO] + ([MODFILE] if MODFILE else []), timeout=60)
 
 
 def build_driver(ctx, cmd_name, clocks=(), race=False, tags="verif"):
